@@ -43,6 +43,28 @@ def callee_binds(prog, cn):
     return False, "%s takes the hash from the blob's own algorithm name" % f.qual
 
 
+def _is_name_of(text, base):
+    """is ``text`` the algorithm name ``base`` itself - optionally with the certificate suffix stripped
+    (.replace('-cert-v01@openssh.com', '')) and optionally encoded / converted (encode, b(), str()) - and nothing
+    else?  An expression that merely *mentions* base (e.g. a key object built from it) is not its name."""
+    try:
+        e = ast.parse(text, mode="eval").body
+    except SyntaxError:
+        return False
+    for _ in range(4):
+        if isinstance(e, ast.Call) and isinstance(e.func, ast.Attribute) and e.func.attr == "encode":
+            e = e.func.value
+        elif isinstance(e, ast.Call) and isinstance(e.func, ast.Name) and e.func.id in ("b", "u", "str", "bytes") and e.args:
+            e = e.args[0]
+        elif isinstance(e, ast.Call) and isinstance(e.func, ast.Attribute) and e.func.attr == "replace" and len(e.args) == 2 \
+                and isinstance(e.args[0], ast.Constant) and e.args[0].value == "-cert-v01@openssh.com" \
+                and isinstance(e.args[1], ast.Constant) and e.args[1].value == "":
+            e = e.func.value
+        else:
+            break
+    return unparse(e) == base
+
+
 def site_binds(fl, vnode, vcall, expected_pred):
     """Is the verify_ssh_sig call dominated by the match arm of a comparison
     between the signature blob's algorithm name and the expected algorithm?"""
@@ -108,7 +130,7 @@ def run(prog, chk):
     vs = fl.nodes_with_call(attr="verify_ssh_sig")
     if len(vs) != 1:
         raise AnalysisError("Transport._verify_key", "expected one verify_ssh_sig call")
-    sites.append(("kex", vk, fl, vs[0], lambda t: "self.host_key_type" in t))
+    sites.append(("kex", vk, fl, vs[0], lambda t: _is_name_of(t, "self.host_key_type")))
     ar = prog.func("AuthHandler._parse_userauth_request")
     fl2 = Flow(prog, ar)
     vs2 = fl2.nodes_with_call(attr="verify_ssh_sig")
@@ -119,12 +141,26 @@ def run(prog, chk):
     if len(gk) != 1:
         raise AnalysisError("AuthHandler._parse_userauth_request", "no _generate_key_from_request call")
     algvar = unparse(gk[0][1].args[0])
-    sites.append(("userauth", ar, fl2, vs2[0], lambda t, a=algvar: t == a or t.startswith(a + ".") or ("(%s" % a) in t))
+    sites.append(("userauth", ar, fl2, vs2[0], lambda t, a=algvar: _is_name_of(t, a)))
 
+    # a class whose algorithm name depends on the instance (ECDSA: one class, three curves) must tie the label to
+    # its *own* name itself: the call site only ties the label to what was negotiated / declared, and _key_info
+    # builds such a key from whatever curve the blob holds
+    instance_named = {}
+    for cn in sorted(kc):
+        gn = prog.method(cn, "get_name")
+        rets = [unparse(r.value) for r in walk_no_defs(gn.node) if isinstance(r, ast.Return)]
+        fixed = rets == ["self.name"] and isinstance(fold.class_env(cn).get("name"), str)
+        instance_named[cn] = not fixed
+        if not fixed:
+            chk.ob("R1.instance-named-class-binds-own-name", cn, binds[cn], gn.loc,
+                   "%s.get_name() returns %s (varies per key); verify_ssh_sig %s" % (
+                       cn, rets, "compares the label with it and rejects" if binds[cn] else
+                       "does not compare the signature's label with the key's own name: a key of another curve labelled with the negotiated name verifies"))
     for (label, f, flow, (vn, vc), pred) in sites:
         sb, why = site_binds(flow, vn, vc, pred)
         for cn in sorted(kc):
-            ok = sb or binds[cn]
+            ok = (sb or binds[cn]) and (binds[cn] or not instance_named[cn])
             chk.ob("R1.algorithm-bound", "%s:%s" % (f.qual, cn), ok, flow.where(vn),
                    ("call site " + why) if sb else ("callee binds" if binds[cn] else
                     "%s signatures: algorithm taken from the blob, never compared with the %s algorithm (%s)" % (
